@@ -3,7 +3,7 @@
 //! outside the target changes.  Fonts: built by recipe, loaded and edited, loaded from crafted
 //! UFOs whose contents.plist / layercontents.plist hold unusual paths.
 use crate::c08::common::*;
-use crate::c08::{fresh_sandbox, make_prior, modify, prepare_loaded, prior_for, run_save, try_store_keys, Prepared, Prior};
+use crate::c08::{collide_edits, fresh_sandbox, make_prior, modify, prepare_loaded, prior_for, run_save, try_store_keys, Prepared, Prior};
 use crate::util::*;
 use norad::{DataRequest, Font};
 use std::collections::BTreeSet;
@@ -258,6 +258,7 @@ pub fn case(seed: u64, idx: u64, out: &Path, verbose: bool, force_variant: Optio
         1 => {
             let mut p = prepare_loaded(&sb, &mut r, false);
             modify(&mut p, &mut r);
+            collide_edits(&mut p, &mut r);
             p
         }
         _ => {
@@ -277,6 +278,9 @@ pub fn case(seed: u64, idx: u64, out: &Path, verbose: bool, force_variant: Optio
     };
     if kind == 2 && r.chance(1, 3) {
         modify(&mut p, &mut r);
+    }
+    if kind == 2 && crafted_loaded && r.chance(1, 2) {
+        collide_edits(&mut p, &mut r);
     }
     try_store_keys(&mut p, &mut r);
     let in_place = p.loaded_from.is_some() && r.chance(1, 3);
@@ -338,12 +342,47 @@ pub fn case(seed: u64, idx: u64, out: &Path, verbose: bool, force_variant: Optio
             opt(format!("{}/contents.plist", d), true, false);
         }
     }
+    // every glyph has a file of its own, and the saved tree loads back to the same glyphs
+    let mut fail_glyphs: Vec<String> = vec![];
+    if saved {
+        let got = subtree(&run.after, &troot);
+        for l in p.font.layers.iter() {
+            let d = l.path().to_string_lossy().to_string();
+            let pre = format!("{}/", d);
+            let nglif = got.iter().filter(|(k, v)| v.is_some() && k.starts_with(&pre) && !k[pre.len()..].contains('/') && k.ends_with(".glif")).count();
+            let mut paths: Vec<String> = l.iter().filter_map(|g| l.get_path(g.name())).map(|q| q.to_string_lossy().to_string()).collect();
+            let nglyphs = paths.len();
+            paths.sort();
+            let before_dedup = paths.len();
+            paths.dedup();
+            if paths.len() != before_dedup {
+                fail_glyphs.push(format!("layer {:?}: two glyphs share a glif file", l.name().to_string()));
+            }
+            // (a layer stored in `data`/`images` may see store files with the same extension)
+            if nglif != nglyphs && !TOP_RESERVED.contains(&d.as_str()) {
+                fail_glyphs.push(format!("layer {:?}: {} glyphs but {} .glif files in {}", l.name().to_string(), nglyphs, nglif, d));
+            }
+        }
+        match catch(|| Font::load(sb.join(&troot))) {
+            Ok(Ok(back)) => {
+                for l in p.font.layers.iter() {
+                    let want: BTreeSet<String> = l.iter().filter(|g| l.get_path(g.name()).is_some()).map(|g| g.name().to_string()).collect();
+                    let have: Option<BTreeSet<String>> = back.layers.get(l.name()).map(|b| b.iter().map(|g| g.name().to_string()).collect());
+                    if have.as_ref() != Some(&want) {
+                        fail_glyphs.push(format!("layer {:?}: saved tree reloads with glyphs {:?}, the font has {:?}", l.name().to_string(), have, want));
+                    }
+                }
+            }
+            Ok(Err(e)) => fail_glyphs.push(format!("the saved tree does not load: {}", format!("{:?}", e).chars().take(160).collect::<String>())),
+            Err(_) => fail_glyphs.push("loading the saved tree panics".into()),
+        }
+    }
     let c_f8 = class_f8(&p.font);
     let c_res = class_reserved(&p.font);
     let mut json = String::new();
     let _ = write!(
         json,
-        "{{\"i\":{},\"kind\":{},\"variant\":{},\"crafted_loaded\":{},\"prior\":{},\"in_place\":{},\"obs\":{},\"ref_ok\":{},\"fail_tree\":{},\"fail_frame\":{},\"fail_opt\":{},\"class_f8\":{},\"class_reserved\":{},\"notes\":{},\"files\":{}}}",
+        "{{\"i\":{},\"kind\":{},\"variant\":{},\"crafted_loaded\":{},\"prior\":{},\"in_place\":{},\"obs\":{},\"ref_ok\":{},\"fail_tree\":{},\"fail_frame\":{},\"fail_opt\":{},\"fail_glyphs\":{},\"class_f8\":{},\"class_reserved\":{},\"notes\":{},\"files\":{}}}",
         idx,
         kind,
         variant,
@@ -355,6 +394,7 @@ pub fn case(seed: u64, idx: u64, out: &Path, verbose: bool, force_variant: Optio
         serde_json::to_string(&fail_tree).unwrap(),
         serde_json::to_string(&fail_frame).unwrap(),
         serde_json::to_string(&fail_opt).unwrap(),
+        serde_json::to_string(&fail_glyphs).unwrap(),
         c_f8,
         c_res,
         serde_json::to_string(&p.notes).unwrap(),
@@ -364,7 +404,7 @@ pub fn case(seed: u64, idx: u64, out: &Path, verbose: bool, force_variant: Optio
         println!("case {}: kind={} variant={} prior={:?} in_place={} notes={:?}", idx, kind, variant, prior, in_place, p.notes);
         println!("observed: {} (fresh-path save ok: {})", run.obs.1, run.ref_ok);
         println!("changes: {:?}", snap_diff(&run.before, &run.after));
-        println!("tree check: {:?}\nframe check: {:?}\noptional files: {:?}", fail_tree, fail_frame, fail_opt);
+        println!("tree check: {:?}\nframe check: {:?}\noptional files: {:?}\nglyph files: {:?}", fail_tree, fail_frame, fail_opt, fail_glyphs);
         println!("class F8 (non-plain loaded path): {}; class reserved-name: {}", c_f8, c_res);
     }
     let _ = std::fs::remove_dir_all(&sb);
